@@ -156,6 +156,13 @@ def gen_dag(rng, n):
                     if dep:
                         d.add(dep)
                 elif r < 0.9:
+                    comps = [x for x in fixed if sch.by_name[x].kind in ('struct', 'union')]
+                    if comps and rng.random() < 0.6:
+                        # optionals hold their value inline: the holder needs the complete struct / union
+                        t0, t = t, rng.choice(comps)
+                        d.add(t)
+                        if t0 != t and t0 not in scal and not any(x.type == t0 for x in mem):
+                            d.discard(t0)
                     mem.append(S.Member('m%d' % j, t, S.OPTIONAL))
                 elif int_typedefs and rng.random() < 0.6:
                     # an array counted by an explicit length field whose type is a typedef of an integer: the struct
@@ -371,6 +378,8 @@ def gen_sack_dag(rng, n):
     usable = []           # names usable as member types
     enum_consts = []      # (enum name, enumerator, value) with small values, usable as array extents
     order = []
+    cppname = {}
+    styles = {}
     for i in range(n):
         k = rng.choice(['typedef', 'enum', 'struct', 'struct', 'union'] if i else ['enum', 'struct'])
         name = 'K%d' % i
@@ -380,9 +389,15 @@ def gen_sack_dag(rng, n):
             if usable and rng.random() < 0.6:
                 t = rng.choice(usable)
                 d.add(t)
-                return t, alias[t]
+                return cppname.get(t, t), alias[t]
             c = rng.choice(sorted(CPP_SCALARS))
             return c, CPP_SCALARS[c]
+        # how the definition is spelled: plainly, inside a namespace (used as ns::K, emitted as ns__K when something
+        # uses it), or as a typedef of an anonymous struct/union/enum
+        style = rng.choice(['plain', 'plain', 'plain', 'namespace', 'anon-typedef']) if k in ('struct', 'union', 'enum') else 'plain'
+        irn = 'ns__' + name if style == 'namespace' else name
+        if style == 'namespace':
+            cppname[name] = 'ns::' + name
         if k == 'typedef':
             t, irt = pick()
             text[name] = 'typedef %s %s;' % (t, name)
@@ -391,11 +406,14 @@ def gen_sack_dag(rng, n):
         elif k == 'enum':
             vals = rng.sample(range(0, 12), rng.randint(1, 3))
             mem = [('%s_%d' % (name, j), v) for j, v in enumerate(vals)]
-            text[name] = 'enum %s { %s };' % (name, ', '.join('%s = %d' % m for m in mem))
-            ir[name] = S.Enum(name, mem)
-            alias[name] = name
+            body = '{ %s }' % ', '.join('%s = %d' % m for m in mem)
+            text[name] = ('typedef enum %s %s;' % (body, name) if style == 'anon-typedef' else
+                          'namespace ns { enum %s %s; }' % (name, body) if style == 'namespace' else 'enum %s %s;' % (name, body))
+            ir[irn] = S.Enum(irn, mem)
+            alias[name] = irn
             usable.append(name)
-            enum_consts.extend((name, en, v) for en, v in mem if 1 <= v <= 5)
+            if style != 'namespace':
+                enum_consts.extend((name, en, v) for en, v in mem if 1 <= v <= 5)
         else:
             mem, lines = [], []
             for j in range(rng.randint(1, 4)):
@@ -412,14 +430,17 @@ def gen_sack_dag(rng, n):
                 else:
                     lines.append('    %s m%d;' % (t, j))
                     mem.append(S.Member('m%d' % j, irt))
-            text[name] = '%s %s\n{\n%s\n};' % (k, name, '\n'.join(lines))
-            ir[name] = S.Struct(name, mem) if k == 'struct' else S.Union(name, [(j, m.type, m.name) for j, m in enumerate(mem)])
-            alias[name] = name
+            body = '\n{\n%s\n}' % '\n'.join(lines)
+            text[name] = ('typedef %s%s %s;' % (k, body, name) if style == 'anon-typedef' else
+                          'namespace ns { %s %s%s; }' % (k, name, body) if style == 'namespace' else '%s %s%s;' % (k, name, body))
+            ir[irn] = S.Struct(irn, mem) if k == 'struct' else S.Union(irn, [(j, m.type, m.name) for j, m in enumerate(mem)])
+            alias[name] = irn
             usable.append(name)
+        styles[name] = style
         kinds[name] = k
         deps[name] = d
         order.append(name)
-    return order, text, deps, kinds, ir
+    return order, text, deps, kinds, ir, styles
 
 
 def topological_shuffle(rng, order, deps):
@@ -434,14 +455,19 @@ def topological_shuffle(rng, order, deps):
 
 
 def run_sack_set(acc, wd, idx0, rng, nperm):
-    order, text, deps, kinds, ir = gen_sack_dag(rng, rng.randint(4, 10))
-    structs = [n for n in order if kinds[n] == 'struct']
+    order, text, deps, kinds, ir, styles = gen_sack_dag(rng, rng.randint(4, 10))
+    # what must be there in any case: the plainly spelled top-level structs (namespaced and anonymous definitions are
+    # emitted when something uses them - the dependency check below demands those)
+    structs = [n for n in order if kinds[n] == 'struct' and styles[n] == 'plain']
     if not structs:
         return
+    for st in set(styles.values()):
+        acc.feature('sack-style:' + st)
     # IR in declaration order, for the reference layout of whatever is emitted
-    sch = S.Schema([ir[n] for n in order if n in ir])
+    irname = lambda n: 'ns__' + n if styles[n] == 'namespace' else n      # noqa
+    sch = S.Schema([ir[irname(n)] for n in order if irname(n) in ir])
     w = W.Wire(sch)
-    ref_lay = {n: w.tinfo(n)[:2] for n in ir if kinds[n] in ('struct', 'union')}
+    ref_lay = {irname(n): w.tinfo(irname(n))[:2] for n in order if kinds[n] in ('struct', 'union')}
     seen = {}
     import importlib
     import sys
